@@ -1,12 +1,541 @@
-//! C31 — not built yet.
-use crate::runner::{Outcome, Summary};
-use crate::Ctx;
-use serde_json::Value;
+//! C31 — extern signatures round-trip and CALL resolution follows the rules.
+//!
+//! replay: TLC cases from spec/mc/MC_Extern.tla.
+//!   kind "sig":  the signature is built through ExternParameter::try_new / ExternSignature::new, printed
+//!                (Quil::to_quil) and parsed back three ways: ExternSignature::from_str, a PRAGMA EXTERN
+//!                instruction through Program::try_extern_signature_map_from_pragma_map, and the same
+//!                pragma through the program parser.  The first two must give the same signature (VIOLATION
+//!                otherwise; the third also involves the pragma printer and is divergence level).  The printed text, tokenized, is compared with the model's PrintSig and the
+//!                model's ParseSig of near-miss token lists with the real parser (divergence level).
+//!   kind "call": a program with the DECLAREs, the PRAGMA EXTERN and the CALL; Call::resolve_arguments
+//!                succeeds iff the model's declarative Resolves says so (VIOLATION otherwise); the
+//!                collected errors / resolved arguments are compared with the model's loop (divergence).
+//! drive:  seeded larger signatures (up to 6 parameters, all four scalar types, lengths 0..1000, tricky
+//!         but valid parameter names) and calls over larger declared alphabets; events
+//!         reset/print/lex/call/callinfo go to spec/trace/ExternTrace.tla.
 
-pub fn replay(_ctx: &Ctx, _case: &Value) -> Outcome {
-    panic!("C31: replay not implemented")
+use crate::runner::{Outcome, Summary, Violation};
+use crate::util::{self, arr, s};
+use crate::Ctx;
+use num_complex::Complex64;
+use quil_rs::instruction::{
+    Call, CallArgumentError, CallArgumentResolutionError, CallResolutionError, CallSignatureError, Declaration,
+    ExternParameter, ExternParameterType, ExternSignature, Instruction, MemoryReference, Pragma, PragmaArgument,
+    ResolvedCallArgument, ScalarType, UnresolvedCallArgument, Vector,
+};
+use quil_rs::quil::Quil;
+use quil_rs::Program;
+use rand::seq::SliceRandom;
+use rand::Rng;
+use serde_json::{json, Value};
+use std::str::FromStr;
+
+// ------------------------------------------------------------------------------ abstraction function
+
+fn scalar_from(name: &str) -> ScalarType {
+    match name {
+        "BIT" => ScalarType::Bit,
+        "INTEGER" => ScalarType::Integer,
+        "OCTET" => ScalarType::Octet,
+        "REAL" => ScalarType::Real,
+        o => panic!("unknown scalar type {o}"),
+    }
 }
 
-pub fn drive(_ctx: &Ctx) -> Summary {
-    panic!("C31: drive not implemented")
+fn scalar_name(t: &ScalarType) -> &'static str {
+    match t {
+        ScalarType::Bit => "BIT",
+        ScalarType::Integer => "INTEGER",
+        ScalarType::Octet => "OCTET",
+        ScalarType::Real => "REAL",
+    }
+}
+
+fn type_from_abs(v: &Value) -> ExternParameterType {
+    let ty = scalar_from(&s(v, "ty"));
+    match s(v, "t").as_str() {
+        "scalar" => ExternParameterType::Scalar(ty),
+        "fixed" => ExternParameterType::FixedLengthVector(Vector::new(ty, util::u(v, "len"))),
+        "var" => ExternParameterType::VariableLengthVector(ty),
+        o => panic!("unknown parameter type tag {o}"),
+    }
+}
+
+fn type_to_abs(t: &ExternParameterType) -> Value {
+    match t {
+        ExternParameterType::Scalar(ty) => json!({"t": "scalar", "ty": scalar_name(ty)}),
+        ExternParameterType::FixedLengthVector(v) => json!({"t": "fixed", "ty": scalar_name(&v.data_type), "len": v.length}),
+        ExternParameterType::VariableLengthVector(ty) => json!({"t": "var", "ty": scalar_name(ty)}),
+    }
+}
+
+pub fn sig_from_abs(v: &Value) -> ExternSignature {
+    let ret = v["ret"].get("some").map(|t| scalar_from(t.as_str().unwrap()));
+    let params = arr(v, "params")
+        .iter()
+        .map(|p| {
+            ExternParameter::try_new(s(p, "name"), p["mut"].as_bool().unwrap(), type_from_abs(&p["ty"]))
+                .unwrap_or_else(|e| panic!("alphabet parameter rejected by ExternParameter::try_new: {p}: {e}"))
+        })
+        .collect();
+    ExternSignature::new(ret, params)
+}
+
+pub fn sig_to_abs(sig: &ExternSignature) -> Value {
+    json!({
+        "ret": util::opt_json(sig.return_type().map(|t| scalar_name(t))),
+        "params": sig.parameters().iter().map(|p| json!({"name": p.name(), "mut": p.mutable(), "ty": type_to_abs(p.data_type())})).collect::<Vec<_>>(),
+    })
+}
+
+/// the harness' own tokenizer of a printed signature (the crate's lexer is private): same token classes
+/// as spec/Extern.tla
+pub fn tokenize(text: &str) -> Vec<Value> {
+    let cs: Vec<char> = text.chars().collect();
+    let mut out = vec![];
+    let mut i = 0;
+    while i < cs.len() {
+        let c = cs[i];
+        if c.is_whitespace() {
+            i += 1;
+            continue;
+        }
+        let punct = match c {
+            '(' => Some("LParen"),
+            ')' => Some("RParen"),
+            ',' => Some("Comma"),
+            ':' => Some("Colon"),
+            '[' => Some("LBracket"),
+            ']' => Some("RBracket"),
+            _ => None,
+        };
+        if let Some(k) = punct {
+            out.push(json!({ "k": k }));
+            i += 1;
+        } else if c.is_ascii_digit() {
+            let st = i;
+            while i < cs.len() && cs[i].is_ascii_digit() {
+                i += 1;
+            }
+            let n: u64 = cs[st..i].iter().collect::<String>().parse().unwrap_or(u64::MAX);
+            out.push(json!({"k": "Int", "n": n}));
+        } else if c.is_ascii_alphabetic() || c == '_' {
+            let st = i;
+            while i < cs.len() && (cs[i].is_ascii_alphanumeric() || cs[i] == '_' || cs[i] == '-') {
+                i += 1;
+            }
+            let w: String = cs[st..i].iter().collect();
+            match w.as_str() {
+                "mut" => out.push(json!({"k": "Mut"})),
+                "BIT" | "INTEGER" | "OCTET" | "REAL" => out.push(json!({"k": "DataType", "v": w})),
+                _ => out.push(json!({"k": "Ident", "v": w})),
+            }
+        } else {
+            out.push(json!({"k": "Other"}));
+            i += 1;
+        }
+    }
+    out
+}
+
+/// token list -> text (single spaces), for feeding near-miss token lists to the real parser
+pub fn render(tokens: &[Value]) -> String {
+    tokens
+        .iter()
+        .map(|t| match t["k"].as_str().unwrap() {
+            "DataType" | "Ident" => t["v"].as_str().unwrap().to_string(),
+            "Int" => format!("{}", t["n"]),
+            "LParen" => "(".into(),
+            "RParen" => ")".into(),
+            "Comma" => ",".into(),
+            "Colon" => ":".into(),
+            "Mut" => "mut".into(),
+            "LBracket" => "[".into(),
+            "RBracket" => "]".into(),
+            _ => "?".into(),
+        })
+        .collect::<Vec<_>>()
+        .join(" ")
+}
+
+fn imm_str(c: &Complex64) -> String {
+    if c.im == 0.0 && c.re.fract() == 0.0 && c.re.abs() < 1e15 {
+        format!("{}", c.re as i64)
+    } else if c.im == 0.0 {
+        format!("{}", c.re)
+    } else {
+        format!("{}+{}i", c.re, c.im)
+    }
+}
+
+pub fn arg_from_abs(v: &Value) -> UnresolvedCallArgument {
+    match s(v, "t").as_str() {
+        "id" => UnresolvedCallArgument::Identifier(s(v, "s")),
+        "mref" => UnresolvedCallArgument::MemoryReference(MemoryReference::new(s(v, "name"), util::u(v, "index"))),
+        "imm" => UnresolvedCallArgument::Immediate(Complex64::new(s(v, "v").parse::<f64>().expect("imm"), 0.0)),
+        o => panic!("unknown argument tag {o}"),
+    }
+}
+
+fn resolved_to_abs(r: &ResolvedCallArgument) -> Value {
+    match r {
+        ResolvedCallArgument::Vector { memory_region_name, vector, mutable } => json!({
+            "t": "Vector", "name": memory_region_name, "ty": scalar_name(&vector.data_type), "len": vector.length, "mut": mutable}),
+        ResolvedCallArgument::MemoryReference { memory_reference, scalar_type, mutable } => json!({
+            "t": "MemoryReference", "name": memory_reference.name, "index": memory_reference.index,
+            "ty": scalar_name(scalar_type), "mut": mutable}),
+        ResolvedCallArgument::Immediate { value, scalar_type } => json!({
+            "t": "Immediate", "v": imm_str(value), "ty": scalar_name(scalar_type)}),
+    }
+}
+
+fn resolution_error_kind(e: &CallArgumentResolutionError) -> &'static str {
+    match e {
+        CallArgumentResolutionError::UndeclaredMemoryReference(_) => "UndeclaredMemoryReference",
+        CallArgumentResolutionError::MismatchedVector { .. } => "MismatchedVector",
+        CallArgumentResolutionError::MismatchedScalar { .. } => "MismatchedScalar",
+        CallArgumentResolutionError::InvalidVectorArgument(_) => "InvalidVectorArgument",
+        CallArgumentResolutionError::ReturnArgument { .. } => "ReturnArgument",
+        CallArgumentResolutionError::ImmediateArgumentForMutable(_) => "ImmediateArgumentForMutable",
+    }
+}
+
+/// the outcome of Call::resolve_arguments in the encoding of Extern!outcome
+fn outcome_to_abs(r: &Result<Vec<ResolvedCallArgument>, CallResolutionError>) -> Value {
+    match r {
+        Ok(v) => json!({"ok": v.iter().map(resolved_to_abs).collect::<Vec<_>>()}),
+        Err(CallResolutionError::Signature { error: CallSignatureError::ParameterCount { .. }, .. }) => {
+            json!({"err": {"t": "ParameterCount"}})
+        }
+        Err(CallResolutionError::Signature { error: CallSignatureError::Arguments(es), .. }) => json!({"err": {
+            "t": "Arguments",
+            "errors": es.iter().map(|e| match e {
+                CallArgumentError::Return(x) => json!({"slot": "return", "index": 0, "kind": resolution_error_kind(x)}),
+                CallArgumentError::Argument { index, error } => json!({"slot": "argument", "index": index, "kind": resolution_error_kind(error)}),
+            }).collect::<Vec<_>>()}}),
+        Err(CallResolutionError::NoMatchingExternInstruction(_)) => json!({"err": {"t": "NoMatchingExternInstruction"}}),
+        Err(CallResolutionError::ExternSignature(_)) => json!({"err": {"t": "ExternSignature"}}),
+    }
+}
+
+// ------------------------------------------------------------------------------------ the real runs
+
+pub struct SigRun {
+    pub text: String,
+    /// ExternSignature::from_str(text)
+    pub direct: Option<ExternSignature>,
+    /// Pragma::new("EXTERN", [foo], text) -> Program -> try_extern_signature_map_from_pragma_map
+    pub via_pragma: Option<ExternSignature>,
+    /// the same pragma printed and parsed by the program parser
+    pub via_program_text: Option<ExternSignature>,
+}
+
+fn extern_pragma(name: &str, text: &str) -> Instruction {
+    Instruction::Pragma(Pragma::new("EXTERN".to_string(), vec![PragmaArgument::Identifier(name.to_string())], Some(text.to_string())))
+}
+
+fn lookup(p: &Program, name: &str) -> Option<ExternSignature> {
+    p.try_extern_signature_map_from_pragma_map().ok().and_then(|m| m.iter().find(|(k, _)| k.as_str() == name).map(|(_, v)| v.clone()))
+}
+
+pub fn run_sig(sig: &ExternSignature) -> SigRun {
+    let text = sig.to_quil().unwrap_or_else(|e| panic!("signature does not print: {e}"));
+    let direct = ExternSignature::from_str(&text).ok();
+    let mut p = Program::new();
+    p.add_instruction(extern_pragma("foo", &text));
+    let via_pragma = lookup(&p, "foo");
+    let via_program_text =
+        p.to_quil().ok().and_then(|t| Program::from_str(&t).ok()).and_then(|q| lookup(&q, "foo"));
+    SigRun { text, direct, via_pragma, via_program_text }
+}
+
+fn roundtrip_failures(sig: &ExternSignature, r: &SigRun) -> Vec<(String, Value)> {
+    let mut f = vec![];
+    let show = |x: &Option<ExternSignature>| x.as_ref().map(sig_to_abs).unwrap_or(json!("does not parse"));
+    if r.direct.as_ref() != Some(sig) {
+        f.push(("signature round trip (ExternSignature::from_str)".to_string(), show(&r.direct)));
+    }
+    if r.via_pragma.as_ref() != Some(sig) {
+        f.push(("signature round trip (try_extern_signature_map_from_pragma_map)".to_string(), show(&r.via_pragma)));
+    }
+    f
+}
+
+/// The third route (the PRAGMA printed inside a program and parsed by the program parser) also involves the
+/// pragma printer / parser and string escaping, which belong to other properties: reported as divergence.
+fn program_text_divergence(sig: &ExternSignature, r: &SigRun) -> Option<String> {
+    if r.via_program_text.as_ref() != Some(sig) {
+        Some(format!("signature does not survive the program-text route: {:?} -> {:?}", r.text, r.via_program_text.as_ref().map(sig_to_abs)))
+    } else {
+        None
+    }
+}
+
+pub fn run_call(sig: &ExternSignature, decls: &[Value], args: &[Value]) -> Result<Vec<ResolvedCallArgument>, CallResolutionError> {
+    let mut p = Program::new();
+    for d in decls {
+        p.add_instruction(Instruction::Declaration(Declaration::new(
+            s(d, "name"),
+            Vector::new(scalar_from(&s(d, "ty")), util::u(d, "len")),
+            None,
+        )));
+    }
+    let text = sig.to_quil().unwrap_or_else(|e| panic!("signature does not print: {e}"));
+    p.add_instruction(extern_pragma("foo", &text));
+    let call = Call::try_new("foo".to_string(), args.iter().map(arg_from_abs).collect()).expect("call name");
+    p.add_instruction(Instruction::Call(call.clone()));
+    let map = p
+        .try_extern_signature_map_from_pragma_map()
+        .unwrap_or_else(|(_, e)| panic!("extern signature map of a valid signature fails: {e}"));
+    call.resolve_arguments(&p.memory_regions, &map)
+}
+
+/// The statement says "a scalar slot takes a declared reference of its type"; whether a bare region name
+/// (an Identifier argument) counts as such a reference is not fixed by it (quil-rs reads `a` as `a[0]`).
+/// Disagreements on calls of that shape are therefore not judged.
+fn has_identifier_in_scalar_slot(sig: &Value, args: &[Value]) -> bool {
+    let off = if sig["ret"].get("some").is_some() { 1 } else { 0 };
+    args.iter().enumerate().any(|(n, a)| {
+        a["t"] == "id" && n >= off && sig["params"].get(n - off).map(|p| p["ty"]["t"] == "scalar").unwrap_or(false)
+    })
+}
+
+// ------------------------------------------------------------------------------------------- replay
+
+pub fn replay(_ctx: &Ctx, case: &Value) -> Outcome {
+    // a violation replay file from trace validation carries a recorded history
+    if let Some(h) = case.get("history") {
+        return replay_history(h.as_array().unwrap());
+    }
+    match s(case, "kind").as_str() {
+        "sig" => replay_sig(case),
+        "call" => replay_call(case),
+        o => panic!("unknown case kind {o}"),
+    }
+}
+
+fn replay_history(h: &[Value]) -> Outcome {
+    let sig_abs = &h[0]["sig"];
+    let sig = sig_from_abs(sig_abs);
+    let mut o = Outcome::ok(true);
+    let r = run_sig(&sig);
+    for (obs, got) in roundtrip_failures(&sig, &r) {
+        o.violate(Violation::new(&obs, sig_abs.clone(), got).note(format!("printed as {:?}", r.text)));
+    }
+    // the verdict on a recorded history was TLC's; here we establish whether the real code still produces the
+    // recorded observations.  All of them reproduced => the rejected history is reproduced.
+    let mut all_same = true;
+    if let Some(p) = h.iter().find(|e| e["ev"] == "print") {
+        let same2 = r.direct == r.via_pragma;
+        let now = util::opt_json(if same2 { r.direct.as_ref().map(sig_to_abs) } else { None });
+        all_same &= p["reparsed"] == now;
+    }
+    for e in h.iter().filter(|e| e["ev"] == "call") {
+        let real = run_call(&sig, arr(&h[0], "decls"), arr(e, "args"));
+        all_same &= e["ok"] == json!(real.is_ok());
+    }
+    if all_same && o.violations.is_empty() {
+        o.violate(Violation::new("history rejected by trace validation (reproduced)", Value::Null, json!(h.len()))
+            .note("the real code produces the same print / call observations that spec/trace/ExternTrace.tla rejected"));
+    }
+    o
+}
+
+fn replay_sig(case: &Value) -> Outcome {
+    let sig_abs = &case["sig"];
+    let sig = sig_from_abs(sig_abs);
+    let mut o = Outcome::ok(!sig.parameters().is_empty());
+    if sig_to_abs(&sig) != *sig_abs {
+        panic!("abstraction function not invertible on {sig_abs}");
+    }
+    let r = run_sig(&sig);
+    for (obs, got) in roundtrip_failures(&sig, &r) {
+        o.violate(Violation::new(&obs, sig_abs.clone(), got).note(format!("printed as {:?}", r.text)));
+    }
+    if let Some(d) = program_text_divergence(&sig, &r) {
+        o.diverge(d);
+    }
+    let toks = Value::Array(tokenize(&r.text));
+    if toks != case["tokens"] {
+        o.diverge(format!("printed tokens differ from PrintSig: {:?} vs model {}", r.text, case["tokens"]));
+    }
+    // the parser on near-miss inputs: accept/reject and the parsed value (beyond the statement)
+    for m in arr(case, "mutants") {
+        let text = render(arr(m, "tokens"));
+        let real = ExternSignature::from_str(&text);
+        o.sub_evaluations += 1;
+        let same = match (&real, m["parse"].get("ok")) {
+            (Ok(x), Some(w)) => sig_to_abs(x) == *w,
+            (Err(_), None) => true,
+            _ => false,
+        };
+        if !same {
+            o.diverge(format!(
+                "parser differs from ParseSig on {text:?}: model {} real {}",
+                m["parse"],
+                real.as_ref().map(sig_to_abs).unwrap_or_else(|e| json!(format!("{e}")[..40.min(format!("{e}").len())].to_string()))
+            ));
+        }
+    }
+    o
+}
+
+fn replay_call(case: &Value) -> Outcome {
+    let sig_abs = &case["sig"];
+    let sig = sig_from_abs(sig_abs);
+    let args = arr(case, "args");
+    let mut o = Outcome::ok(!args.is_empty());
+    let real = run_call(&sig, arr(case, "decls"), args);
+    let want = case["resolves"].as_bool().expect("resolves");
+    if real.is_ok() != want {
+        if has_identifier_in_scalar_slot(sig_abs, args) {
+            o.diverge(format!("resolution of a bare region name in a scalar slot differs: model {want}, real {}", outcome_to_abs(&real)));
+        } else {
+            o.violate(
+                Violation::new("CALL resolves", json!(want), json!(real.is_ok()))
+                    .note(format!("real outcome {}", outcome_to_abs(&real))),
+            );
+        }
+    } else if outcome_to_abs(&real) != case["outcome"] {
+        o.diverge(format!("resolution detail differs: model {} real {}", case["outcome"], outcome_to_abs(&real)));
+    }
+    o.count(if real.is_ok() { "resolved" } else { "rejected" });
+    o
+}
+
+// ------------------------------------------------------------------------------------------- drive
+
+const PARAM_NAMES: &[&str] = &[
+    "x", "bar", "a_b", "a-b", "q0", "mutable", "muta", "integer", "real_1", "Bit", "mut_", "_mut", "i1", "pie", "x-1-y", "REALLY",
+    "ro", "theta", "I0", "defgate",
+];
+const REGION_NAMES: &[&str] = &["a", "v", "b", "ro", "theta", "mem-1", "w_2", "o"];
+const TYPES: &[&str] = &["BIT", "INTEGER", "OCTET", "REAL"];
+
+fn random_type(r: &mut impl Rng) -> Value {
+    let ty = *TYPES.choose(r).unwrap();
+    match r.gen_range(0..3) {
+        0 => json!({"t": "scalar", "ty": ty}),
+        1 => json!({"t": "fixed", "ty": ty, "len": *[0u64, 1, 2, 3, 16, 1000].choose(r).unwrap()}),
+        _ => json!({"t": "var", "ty": ty}),
+    }
+}
+
+fn fitting_arg(r: &mut impl Rng, slot: &Value, decls: &[Value]) -> Option<Value> {
+    // try to build an argument that fits the slot (may be impossible with the declared regions)
+    let want_ty = if slot["slot"] == "ret" { slot["ty"].clone() } else { slot["p"]["ty"]["ty"].clone() };
+    let kind = if slot["slot"] == "ret" { "scalar".to_string() } else { s(&slot["p"]["ty"], "t") };
+    let cands: Vec<&Value> = decls
+        .iter()
+        .filter(|d| d["ty"] == want_ty && (kind != "fixed" || d["len"] == slot["p"]["ty"]["len"]))
+        .collect();
+    if kind == "scalar" && slot["slot"] != "ret" && slot["p"]["mut"] == false && r.gen_bool(0.3) {
+        return Some(json!({"t": "imm", "v": *["0", "1", "2.5", "7"].choose(r).unwrap()}));
+    }
+    let d = cands.choose(r)?;
+    if kind == "scalar" {
+        let len = d["len"].as_u64().unwrap();
+        if len == 0 || r.gen_bool(0.3) {
+            if len == 0 {
+                return None;
+            }
+            Some(json!({"t": "id", "s": d["name"]}))
+        } else {
+            Some(json!({"t": "mref", "name": d["name"], "index": r.gen_range(0..len)}))
+        }
+    } else {
+        Some(json!({"t": "id", "s": d["name"]}))
+    }
+}
+
+fn random_arg(r: &mut impl Rng, decls: &[Value]) -> Value {
+    let names: Vec<String> = decls.iter().map(|d| s(d, "name")).chain(["undeclared".to_string()]).collect();
+    let n = names.choose(r).unwrap().clone();
+    match r.gen_range(0..3) {
+        0 => json!({"t": "id", "s": n}),
+        1 => {
+            // keep the index inside the region (see the exclusion in MC_Extern.tla)
+            let len = decls.iter().find(|d| d["name"] == n.as_str()).map(|d| d["len"].as_u64().unwrap()).unwrap_or(1).max(1);
+            json!({"t": "mref", "name": n, "index": r.gen_range(0..len)})
+        }
+        _ => json!({"t": "imm", "v": *["0", "1", "2.5"].choose(r).unwrap()}),
+    }
+}
+
+pub fn drive(ctx: &Ctx) -> Summary {
+    let n = ctx.arg_u64("n", 200);
+    let calls_per = ctx.arg_u64("calls", 4);
+    let path = ctx.arg_str("out").expect("--out");
+    let mut out = std::io::BufWriter::new(std::fs::File::create(path).expect("create trace"));
+    let mut rng = util::rng(ctx.seed, 31);
+    let mut sum = Summary::default();
+    // "valid signature" = accepted by the public constructor: names the constructor rejects are not inputs
+    let param_names: Vec<&str> = PARAM_NAMES
+        .iter()
+        .copied()
+        .filter(|n| ExternParameter::try_new(n.to_string(), false, ExternParameterType::Scalar(ScalarType::Bit)).is_ok())
+        .collect();
+    for h in 0..n {
+        let np = if h < 3 { h as usize % 2 } else { rng.gen_range(0..=6) };
+        let ret = if np == 0 || rng.gen_bool(0.5) { json!({"some": *TYPES.choose(&mut rng).unwrap()}) } else { json!({"none": true}) };
+        let params: Vec<Value> = (0..np)
+            .map(|_| json!({"name": *param_names.choose(&mut rng).unwrap(), "mut": rng.gen_bool(0.5), "ty": random_type(&mut rng)}))
+            .collect();
+        let sig_abs = json!({"ret": ret, "params": params});
+        let sig = sig_from_abs(&sig_abs);
+        let mut names: Vec<&str> = REGION_NAMES.to_vec();
+        names.shuffle(&mut rng);
+        let nd = rng.gen_range(3..=8);
+        let decls: Vec<Value> = names[..nd]
+            .iter()
+            .map(|nm| json!({"name": nm, "ty": *TYPES.choose(&mut rng).unwrap(), "len": *[1u64, 1, 2, 3, 16].choose(&mut rng).unwrap()}))
+            .collect();
+        util::emit(&mut out, &json!({"ev": "reset", "sig": sig_abs, "decls": decls}));
+        let r = run_sig(&sig);
+        let all_same = r.direct == r.via_pragma;
+        // verdict event: what the text parses back to (None = does not parse / the two routes disagree)
+        util::emit(&mut out, &json!({"ev": "print",
+            "reparsed": util::opt_json(if all_same { r.direct.as_ref().map(sig_to_abs) } else { None })}));
+        util::emit(&mut out, &json!({"ev": "lex", "tokens": tokenize(&r.text)}));
+        let mut o = Outcome::ok(np >= 1);
+        if let Some(d) = program_text_divergence(&sig, &r) {
+            o.diverge(d);
+        }
+        let mut events = 3;
+        // the slots, as the spec numbers them
+        let mut slots: Vec<Value> = vec![];
+        if let Some(t) = sig_abs["ret"].get("some") {
+            slots.push(json!({"slot": "ret", "ty": t}));
+        }
+        for p in arr(&sig_abs, "params") {
+            slots.push(json!({"slot": "param", "p": p}));
+        }
+        for _ in 0..calls_per {
+            let mut args: Vec<Value> = slots
+                .iter()
+                .map(|sl| {
+                    if rng.gen_bool(0.93) {
+                        fitting_arg(&mut rng, sl, &decls).unwrap_or_else(|| random_arg(&mut rng, &decls))
+                    } else {
+                        random_arg(&mut rng, &decls)
+                    }
+                })
+                .collect();
+            if rng.gen_bool(0.04) {
+                args.pop();
+            } else if rng.gen_bool(0.04) {
+                args.push(random_arg(&mut rng, &decls));
+            }
+            let real = run_call(&sig, &decls, &args);
+            // verdict event: resolves or not; calls with a bare region name in a scalar slot are not judged
+            let judged = !has_identifier_in_scalar_slot(&sig_abs, &args);
+            util::emit(&mut out, &json!({"ev": "call", "args": args, "ok": real.is_ok(), "judged": judged}));
+            util::emit(&mut out, &json!({"ev": "callinfo", "outcome": outcome_to_abs(&real)}));
+            events += 2;
+            o.count(if real.is_ok() { "resolved" } else { "rejected" });
+        }
+        o.count_n("events", events);
+        sum.absorb(&json!({"sig": sig_abs, "decls": decls}), &o, true);
+    }
+    sum
 }
